@@ -210,6 +210,24 @@ def scan_total_errors(data: bytes, depth=None):
     return [], tree
 
 
+def mkpe(ptr_raw, size_raw, total):
+    """A minimal PE image with one section (pointer, size of raw data) padded to `total` bytes."""
+    import struct
+
+    dos = bytearray(0x40)
+    dos[0:2] = b"MZ"
+    struct.pack_into("<I", dos, 0x3C, 0x40)
+    coff = struct.pack("<4sHHIIIHH", b"PE\0\0", 0x14C, 1, 0, 0, 0, 0xE0, 0x102)
+    opt = bytearray(0xE0)
+    struct.pack_into("<H", opt, 0, 0x10B)
+    struct.pack_into("<I", opt, 0x20, 0x1000)
+    struct.pack_into("<I", opt, 0x24, 0x200)
+    struct.pack_into("<I", opt, 0x5C, 16)
+    sec = struct.pack("<8sIIIIIIHHI", b".text", 0x1000, 0x1000, size_raw, ptr_raw, 0, 0, 0, 0, 0x60000020)
+    d = bytes(dos) + coff + bytes(opt) + sec
+    return d + b"\0" * (total - len(d)) if total > len(d) else d
+
+
 def corpus(tier, seed):
     """Inputs for the decoder stand-ins: members of every real pattern (embedded), hand-picked edge cases, random bytes."""
     rng = random.Random(seed)
@@ -233,6 +251,9 @@ def corpus(tier, seed):
         b"MZ" + b"\x00" * 70, b"http://a.com/p?#frag", b"http://a.com/%41%42/x?q=%41#f", b"http://%61.com/p", b"http://a.com/../a", b"1.2.3.4 <t>",
         b"\\\\?\\UNC\\a", b"\\\\.\\x", b"c:\\a\\..\\..\\b.exe", b"0x41," * 501 + b"0x41 -bxor", b"300," * 501 + b"1",
     ]
+    edge += [b"MZ" + b"\x00" * k for k in range(0x38, 0x48)] + [b"xx MZ" + b"A" * k for k in range(0x38, 0x48)]
+    edge += [b"xx" + mkpe(0x200, 0x200, 0x400), b"xx" + mkpe(0x200, 0x10000, 0x400), mkpe(0x200, 0x300, 0x400) + b"tail", mkpe(0x3F0, 0x20, 0x400)]
+    edge += [b'x = "ab" & "cd"', b"chr(65)", b"y=atob('QUJDRA==')", b'"a".replace("a","b")']
     out += [("edge", e) for e in edge]
     for _ in range(200 if tier == "quick" else 5000):
         n = rng.randint(0, 60)
